@@ -74,7 +74,7 @@ class DataTypeSymbol(Symbol):
 
         '''
         return type(self)(self.name, self.datatype, visibility=self.visibility,
-                          interface=self.interface)
+                          interface=self.interface.copy())
 
     def __str__(self):
         return f"{self.name}: {type(self).__name__}"
